@@ -4,6 +4,7 @@ import (
 	"strconv"
 	"strings"
 
+	"github.com/cloudspannerecosystem/memefish/char"
 	"github.com/cloudspannerecosystem/memefish/token"
 )
 
@@ -265,7 +266,20 @@ func (s *Star) SQL() string {
 }
 
 func (s *DotStar) SQL() string {
-	return s.Expr.SQL() + ".*" + sqlOpt(" ", s.Except, "") + sqlOpt(" ", s.Replace, "")
+	return spaceAfterInt(s.Expr.SQL()) + ".*" + sqlOpt(" ", s.Except, "") + sqlOpt(" ", s.Replace, "")
+}
+
+// spaceAfterInt appends a blank to sql when it ends with a decimal integer literal:
+// a "." written directly after it would be lexed as part of a float literal ("1.*" is the float "1." and "*").
+func spaceAfterInt(sql string) string {
+	i := len(sql)
+	for i > 0 && char.IsDigit(sql[i-1]) {
+		i--
+	}
+	if i == len(sql) || i > 0 && (char.IsIdentPart(sql[i-1]) || sql[i-1] == '.') {
+		return sql
+	}
+	return sql + " "
 }
 
 func (a *Alias) SQL() string {
